@@ -38,11 +38,13 @@ pub trait JsonParser {
             // the kind of value returned is the one its first byte announces
             ({ let p = old(self).rv().pending; let w = ws_run(p) as int;
                r is Ok && r->Ok_0 is Some ==> at(p, w) is Some && value_kind(at(p, w)->0, r->Ok_0->0) }), // @tobl L2.dispatch
-            // a string token is decoded per RFC 8259 §7 (str_dec), ends at its closing quote, and the byte after it is current
-            ({ let p = old(self).rv().pending; let w = ws_run(p) as int;
-               r is Ok && r->Ok_0 is Some && at(p, w) == Some(0x22u8) ==> (match (r->Ok_0->0, str_dec(from(p, w), 1, Seq::empty())) {
-                   (JsonValue::String(s), Some((bytes, k))) => str_bytes(s@) == bytes && final(self).rv().pending =~= from(p, w + k + 1),
-                   _ => false }) }), // @tobl L3.string
+            // THE VALUE: what is returned is the value the spec parser pv reads from the pending bytes (RFC 8259 grammar: strings
+            // decoded by str_dec, numbers by num_val, array elements in order, object members by insertion), exactly its text
+            // is consumed, and the byte after it is the current byte
+            ({ let p = old(self).rv().pending;
+               r is Ok && r->Ok_0 is Some ==> (match pv(p) {
+                   Some((v, n)) => r->Ok_0->0 == v && 0 < n <= p.len() && final(self).rv().pending =~= from(p, n),
+                   None => false }) }), // @tobl L3.value
         decreases old(self).rv().pending.len(), 2int,
 //@@ endfn
 }
